@@ -600,6 +600,12 @@ class Gen:
                 extra = " bridge=%s" % b                      # bridge withdrawal without a rollup memo
             if r.random() < 0.3:
                 denom = self.bridges[b]["asset"]
+            if r.random() < 0.12:
+                # bridge_address naming an account that is NOT a bridge account (somebody's plain
+                # account): must be refused, whoever signs
+                nb = [a for a in (self.acct(0, 9) for _ in range(6)) if a not in self.bridges]
+                if nb:
+                    extra = extra.replace("bridge=%s" % b, "bridge=%s" % nb[0])
         else:
             s = signer or self.user()
             extra = ""
